@@ -138,7 +138,7 @@ def _words(chars):
     return n
 
 
-def h_accept_any(E, mode, explain, N):
+def h_accept_any(E, mode, explain, N, strip_all=False, clean_spaces=True):
     from mitxgraders import StringGrader
     from mitxgraders.exceptions import InvalidInput
     import mitxgraders.stringgrader as SG
@@ -148,13 +148,13 @@ def h_accept_any(E, mode, explain, N):
     ml = E.int('min_length', 0, 5)
     mw = E.int('min_words', 0, 3)
     with shadow(SG, re=rx.ReShim(), str=sym_str), shadow(VS, isinstance=sym_isinstance), shadow(VV, isinstance=sym_isinstance):
-        g = StringGrader(min_length=ml, min_words=mw, explain_minimums=explain, **{mode: True})
+        g = StringGrader(min_length=ml, min_words=mw, explain_minimums=explain, strip_all=strip_all, clean_spaces=clean_spaces, **{mode: True})
         try:
             r = g(None, s)
             raised = None
         except InvalidInput as e:
             r, raised = None, str(e)
-    cleaned = norm(_as_chars(s), True, True, False, True)
+    cleaned = norm(_as_chars(s), True, True, strip_all, clean_spaces)
     need = ml
     if mode == 'accept_nonempty':
         need = E.mode == 'conc' and (max(ml, 1)) or (ml if False else None)
@@ -271,6 +271,8 @@ def harnesses(tier):
     for mode in ('accept_any', 'accept_nonempty'):
         for explain in ('err', 'msg', None):
             add(h_accept_any, 'accept', dict(mode=mode, explain=explain, N=4 if T else 3), 'all Unicode strings, symbolic minimums')
+        add(h_accept_any, 'accept', dict(mode=mode, explain='msg', N=4 if T else 3, strip_all=True, clean_spaces=False), 'all Unicode strings, symbolic minimums, strip_all')
+        add(h_accept_any, 'accept', dict(mode=mode, explain=None, N=3, strip_all=False, clean_spaces=False), 'all Unicode strings, symbolic minimums, clean_spaces off')
     for pi in range(len(PATTERNS)):
         add(h_validation_language, 'validation_language', dict(p=pi), 'pattern %r, no length bound' % PATTERNS[pi], validate=False)
         for mode, explain in (('any', 'err'), ('any', None), ('match', 'msg')):
